@@ -22,9 +22,9 @@ IR node = dict with a type tag "t":
 Check modules can add node types (harness boxes, models, unrepresentable
 leaves) through `Builder(ext=...)` and by subclassing `Gen`.
 
-Also here (shared by C28/C29): `FreshServer`, which answers "what does a fresh
-interpreter give for this?" by forking a pristine, just-imported interpreter
-once per question.
+Also here (shared by C28/C29): `EntryMonitor` (sys.monitoring entry counter
+with a logical bound) and `fresh_process`, which puts a question to a
+brand-new interpreter process.
 """
 import collections
 import fractions
@@ -320,7 +320,7 @@ class Gen:
 
     def finish(self, n, hashable):
         is_cont = "c" in n
-        if self.rng.random() < (self.label_p if is_cont else 0.1) and not escaping_refs(n):
+        if self.rng.random() < (self.label_p if is_cont else min(0.1, self.label_p)) and not escaping_refs(n):
             h = hashable or (not is_cont and n["t"] not in self.UNHASHABLE_LEAF)
             self.label(n, h)
         return n
@@ -509,13 +509,17 @@ class Builder:
     ref_hook(target_type) -> object   replaces every self-reference (used to
                                       build the acyclic 'marker' twin)
     ext = {type: fn(builder, node) -> object}   extra node types
+    on_store(node, value, container, key)       called for every child stored in
+                                                a list / deque / dict-like slot
     """
 
-    def __init__(self, ref_hook=None, ext=None):
+    def __init__(self, ref_hook=None, ext=None, on_store=None):
         self.stack = []
         self.labels = {}
         self.ref_hook = ref_hook
         self.ext = ext or {}
+        self.on_store = on_store      # on_store(node, value, container, key) for every
+                                      # child stored in a list/deque/dict-like slot
 
     def build(self, n):
         v = self._b(n)
@@ -537,8 +541,11 @@ class Builder:
             if cont[key] is hole:
                 cont[key] = obj
 
-    def put(self, v, cont, key):
-        """v was stored at cont[key]; if it is a hole, fill it in later."""
+    def put(self, v, cont, key, node=None):
+        """v (built from IR `node`) was stored at cont[key]; if it is a hole,
+        fill it in later."""
+        if self.on_store is not None and node is not None:
+            self.on_store(node, v, cont, key)
         if isinstance(v, _Hole):
             v.frame["patches"].append((v, cont, key))
             return True
@@ -605,7 +612,7 @@ class Builder:
             v = self._b(c)
             i = len(obj)
             obj.append(v)
-            self.put(v, obj, i)
+            self.put(v, obj, i, c)
         self.pop(fr, obj)
         return obj
 
@@ -616,7 +623,7 @@ class Builder:
             v = self._b(c)
             i = len(obj)
             obj.append(v)
-            self.put(v, obj, i)
+            self.put(v, obj, i, c)
         self.pop(fr, obj)
         return obj
 
@@ -652,7 +659,7 @@ class Builder:
             k = self._b(kn)
             v = self._b(vn)
             dict.__setitem__(obj, k, v)
-            self.put(v, obj, k)
+            self.put(v, obj, k, vn)
         self.pop(fr, obj)
         return obj
 
@@ -666,7 +673,7 @@ class Builder:
             k = self._b(kn)
             v = self._b(vn)
             obj[k] = v
-            self.put(v, obj, k)
+            self.put(v, obj, k, vn)
         self.pop(fr, obj)
         return obj
 
@@ -841,122 +848,28 @@ class EntryMonitor:
             raise EventBound(self.count)
 
 
-# --------------------------------------------------------------- fresh server
+# -------------------------------------------------------------- fresh process
 
-class FreshServer:
-    """Answers requests in *fresh interpreter state*.
-
-    A child process imports hy (from the tree under test) and the named check
-    module, and then never calls the functions under test itself.  For every
-    request it forks; the forked copy -- an interpreter in which hy has been
-    imported and nothing else has happened -- computes `module.fresh_eval(arg)`
-    for each argument (one fork per argument), writes the JSON result and
-    exits.  So every answer comes from a process in which no earlier hy.repr /
-    hy.as-model call was ever made.  `genuine()` asks a brand-new interpreter
-    (exec, not fork) instead; the checks use it on a sample to validate the
-    fork shortcut.
-    """
-
-    def __init__(self, modname):
-        self.modname = modname
-        self.proc = None
-        self.cache = {}
-        self.requests = 0
-        self.forks = 0
-
-    def start(self):
-        self.proc = subprocess.Popen(
-            [sys.executable, "-m", "hv.gen_values", "--fresh-server", self.modname],
-            stdin=subprocess.PIPE, stdout=subprocess.PIPE, env=dict(os.environ),
-            cwd=os.path.dirname(os.path.dirname(os.path.abspath(__file__))))
-
-    def stop(self):
-        p, self.proc = self.proc, None
-        if p is not None:
-            try:
-                p.stdin.close()
-            except Exception:
-                pass
-            try:
-                p.kill()
-            except Exception:
-                pass
-            p.wait()
-
-    def ask(self, args):
-        """args: list of JSON-able arguments -> list of results, each computed
-        in its own fresh fork."""
-        if self.proc is None or self.proc.poll() is not None:
-            self.start()
-        try:
-            self.proc.stdin.write((json.dumps(args) + "\n").encode())
-            self.proc.stdin.flush()
-            line = self.proc.stdout.readline()
-            if not line:
-                raise RuntimeError("fresh server died")
-            self.requests += 1
-            self.forks += len(args)
-            return json.loads(line)
-        except BaseException:
-            self.stop()
-            raise
-
-    def genuine(self, arg):
-        """The same question put to a brand-new interpreter process."""
-        out = subprocess.run(
-            [sys.executable, "-m", "hv.gen_values", "--fresh-one", self.modname],
-            input=json.dumps(arg).encode(), capture_output=True, env=dict(os.environ),
-            cwd=os.path.dirname(os.path.dirname(os.path.abspath(__file__))), timeout=120)
+def fresh_process(modname, arg, timeout=300):
+    """`module.fresh_eval(arg)` computed in a brand-new interpreter process
+    (exec, nothing shared with the caller).  Process creation is expensive, so
+    the checks use this to *confirm* a suspected difference and on a sample."""
+    out = subprocess.run(
+        [sys.executable, "-m", "hv.gen_values", "--fresh-one", modname],
+        input=json.dumps(arg).encode(), capture_output=True, env=dict(os.environ),
+        cwd=os.path.dirname(os.path.dirname(os.path.abspath(__file__))), timeout=timeout)
+    try:
         return json.loads(out.stdout.decode().strip().splitlines()[-1])
-
-
-def _serve(modname):
-    import importlib
-    import hy  # noqa: F401
-    repo = os.environ.get("VERIF_REPO", "/repo")
-    if not os.path.abspath(hy.__file__).startswith(os.path.abspath(repo) + os.sep):
-        raise SystemExit(f"hy imported from {hy.__file__}, not {repo}")
-    mod = importlib.import_module(modname)
-    if hasattr(mod, "fresh_preload"):
-        mod.fresh_preload()       # imports / registrations only; never calls the code under test
-    inp = sys.stdin.buffer
-    while True:
-        line = inp.readline()
-        if not line:
-            return
-        args = json.loads(line)
-        results = []
-        for arg in args:
-            r, w = os.pipe()
-            pid = os.fork()
-            if pid == 0:
-                code = 0
-                try:
-                    os.close(r)
-                    try:
-                        res = mod.fresh_eval(arg)
-                    except BaseException as e:  # harness failure inside the child
-                        res = {"harness_error": f"{type(e).__name__}: {e}"}
-                    data = json.dumps(res).encode()
-                    with os.fdopen(w, "wb") as f:
-                        f.write(data)
-                except BaseException:
-                    code = 1
-                finally:
-                    os._exit(code)
-            os.close(w)
-            with os.fdopen(r, "rb") as f:
-                data = f.read()
-            os.waitpid(pid, 0)
-            try:
-                results.append(json.loads(data))
-            except ValueError:
-                results.append({"harness_error": "fresh child produced no result"})
-        os.write(1, (json.dumps(results) + "\n").encode())
+    except Exception:
+        return {"harness_error": "fresh process gave no result: " + out.stderr.decode()[-400:]}
 
 
 def _one(modname):
     import importlib
+    import hy
+    repo = os.environ.get("VERIF_REPO", "/repo")
+    if not os.path.abspath(hy.__file__).startswith(os.path.abspath(repo) + os.sep):
+        raise SystemExit(f"hy imported from {hy.__file__}, not {repo}")
     mod = importlib.import_module(modname)
     arg = json.loads(sys.stdin.buffer.read())
     try:
@@ -967,7 +880,5 @@ def _one(modname):
 
 
 if __name__ == "__main__":
-    if len(sys.argv) == 3 and sys.argv[1] == "--fresh-server":
-        _serve(sys.argv[2])
-    elif len(sys.argv) == 3 and sys.argv[1] == "--fresh-one":
+    if len(sys.argv) == 3 and sys.argv[1] == "--fresh-one":
         _one(sys.argv[2])
